@@ -396,12 +396,18 @@ impl<'a> Gen<'a> {
                 }
             }
             if c.probe {
+                // (a property first and last, so that properties of consecutive operations are
+                // adjacent in the scope's queue with nothing but scope changes in between)
+                let pv0 = s.fresh("pw");
+                s.ops.push((a, Op::LocalAddProps { props: vec![("pk".into(), pv0)] }));
                 let pslot = 1000 + s.counter as u32;
                 let pn = s.fresh("probe");
                 s.ops.push((a, Op::ChildLocal { slot: pslot, name: pn, props: vec![] }));
                 s.ops.push((a, Op::Finish { slot: pslot }));
                 let en = s.fresh("pe");
                 s.ops.push((a, Op::LocalAddEvent { name: en, props: vec![] }));
+                let pv = s.fresh("pv");
+                s.ops.push((a, Op::LocalAddProps { props: vec![("pk".into(), pv)] }));
             }
         }
     }
